@@ -135,6 +135,9 @@ def run_case(case):
             runs.append(({"cwd": "tmp" if cwd == tmpd else cwd}, dict(cwd=cwd, hashseed=str(101 + len(runs)))))
         for e in ENVS:
             runs.append(({"env": {k: str(v) for k, v in e.items()}}, dict(env=e, hashseed="7")))
+        # the output path already holds a (longer) file from some earlier run
+        runs.append(({"stale_output_file": "200 kB of 0xaa"}, dict(hashseed="9", stale_output=b"\xaa" * 200000)))
+        runs.append(({"stale_output_file": "own output followed by 64 bytes"}, dict(hashseed="9", stale_output=ref.out + b"\x55" * 64)))
         try:
             for sig, kw in runs:
                 res = harness.run_cli(data, kl, **kw)
@@ -167,7 +170,8 @@ def run_case(case):
             fresh = harness.run_tlexport(db, kb)                       # reference: state restored by the harness
             harness.reset_state()
             r1 = harness.run_tlexport(da, ka, reset=False)
-            r2 = harness.run_tlexport(db, kb, reset=False)              # no restoration between the two runs
+            r2 = harness.run_tlexport(db, kb, reset=False, keep_output=True)   # no restoration between the two runs: module state,
+            #                                                                   class state and the first run's output file stay
             harness.reset_state()
             n += 3
             sig = {"first": a, "second": b}
